@@ -28,7 +28,10 @@ cp SEED/demo_test.go "/verif/seeded/$NAME/demo_test.go"
 cp SEED/notes.md "/verif/seeded/$NAME/notes.md" 2>/dev/null
 rm -f /tmp/seed_demo_hold.go
 cd /verif
-git -C /repo apply "/verif/seeded/$NAME/patch.diff" || { echo "cannot apply to /repo"; exit 2; }
+# the checks run against the patched scratch worktree (VERIF_REPO), so /repo stays untouched and other
+# checks may run on it at the same time; `git -C /repo apply <patch>; ./check; git -C /repo checkout -- .` is equivalent
+git -C "$WT" apply "/verif/seeded/$NAME/patch.diff" || { echo "cannot apply to $WT"; exit 2; }
+export VERIF_REPO="$WT"
 for ID in "$@"; do
   cp "evidence/$ID.json" "build/evidence.$ID.keep" 2>/dev/null
   echo "== /repo patched: ./check $ID"
@@ -36,5 +39,5 @@ for ID in "$@"; do
   echo "rc=${PIPESTATUS[0]}"
   cp "build/evidence.$ID.keep" "evidence/$ID.json" 2>/dev/null   # the evidence file describes the unchanged tree
 done
-git -C /repo checkout -- .
-git -C /repo status --short | head -3
+git -C "$WT" checkout -- .
+git -C "$WT" status --short | grep -v SEED | head -3
